@@ -3,7 +3,8 @@ import Vflow.Gen.OptionsTbl
 /-! line protocol: `options <env> <file> <args>`
 * env:  `-` or `NAME=<hex>,…` (environment variables, value hex, may be empty)
 * file: `-` (no file) or `F:` followed by `yamlkey:i:<decimal>` / `yamlkey:b:true|false` / `yamlkey:s:<hex>`, comma separated
-* args: `-` or comma separated hex tokens of `os.Args[1:]`; the token `@` stands for the path of the file, `.` for an empty token
+* args: `-` or comma separated hex tokens of `os.Args[1:]`; the token `@` stands for the path of the file,
+  `<hex>@` for the text followed by the path of the file (`-config=<path>`), `.` for an empty token
 output: `ok Field=i:<n>;Field=b:<bool>;Field=s:<hex>;…` (table order) | `exit <code>` | `panic` -/
 namespace Driver
 open Vflow Vflow.Options
@@ -33,7 +34,10 @@ def parseFile (s : String) : Option (List (String × Val)) :=
 def cfgToken : String := "@CFG"
 
 def parseArgsLine (s : String) : List String :=
-  if s = "-" then [] else (s.splitOn ",").map (fun t => if t = "@" then cfgToken else if t = "." then "" else hexOrEmpty t)
+  if s = "-" then [] else (s.splitOn ",").map (fun t =>
+    if t = "@" then cfgToken else if t = "." then ""
+    else if t.endsWith "@" then hexOrEmpty (String.ofList t.toList.dropLast) ++ cfgToken
+    else hexOrEmpty t)
 
 def lookupLast {α : Type} (l : List (String × α)) (k : String) : Option α :=
   (l.reverse.find? (fun p => p.1 = k)).map (·.2)
